@@ -237,10 +237,26 @@ def upbTableOrthonormal (t : UPBTable) : Bool :=
 def upbProductRow (rows : List (List QI)) : List QI :=
   rows.foldl (fun acc v => acc.flatMap fun x => v.map fun y => x * y) [1]
 
+section upbgeneric
+variable {α : Type} [Add α] [Sub α] [Mul α] [Zero α] [One α] [Conj α]
+
+/-- `Σ_{a<m} f a` as a left fold -/
+def sumRange (m : Nat) (f : Nat → α) : α := (List.range m).foldl (fun acc a => acc + f a) 0
+
+/-- `(upb.T @ upb.conj())[r,c] = Σ_a w_a[r]·conj(w_a[c])`; `w a` is the `a`-th product vector (row `a` of `upb`) -/
+def upbProj (m : Nat) (w : Nat → Nat → α) (r c : Nat) : α := sumRange m fun a => w a r * conj (w a c)
+
 /-- `upb_to_bes` before normalisation (`upb.py:222`): `eye(D) - upb.T @ upb.conj()`; entry `(r, c)`. -/
+def upbCompl (m : Nat) (w : Nat → Nat → α) (r c : Nat) : α := (if r = c then 1 else 0) - upbProj m w r c
+
+/-- product vectors across a bipartite cut (`get_upb_product`, `upb.py:28`): `w_a[i·dB + j] = u_a[i]·v_a[j]` -/
+def prodVec (dB : Nat) (u v : Nat → Nat → α) (a x : Nat) : α := u a (x / dB) * v a (x % dB)
+
+end upbgeneric
+
+/-- `upb_to_bes` before normalisation on the list of product vectors (what the driver runs, over `ℚ[i]`). -/
 def upbComplement (prod : List (List QI)) (r c : Nat) : QI :=
-  let p := prod.foldl (fun acc v => acc + v.getD r 0 * conj (v.getD c 0)) (0 : QI)
-  (if r = c then (1 : QI) else 0) - p
+  upbCompl prod.length (fun a x => (prod.getD a []).getD x 0) r c
 
 /-! ### tetrahedron POVM (`utils.py:361-369`) -/
 
